@@ -199,7 +199,7 @@ class C01(Property):
             for h in itertools.product(core, repeat=n):
                 i += 1
                 yield self._mk(list(h), i)
-        n_rand = 60000 if self.thorough else 2500
+        n_rand = 60000 if self.thorough else 5000
         for j in range(n_rand):
             yield self.random_case(rng, long=self.thorough and j % 8 == 0)
 
@@ -426,12 +426,15 @@ class C01(Property):
         cx = Ctx(case)
         out = []
         try:
-            with time_limit(10):
+            # a history takes milliseconds; once a case has timed out (a looping implementation)
+            # the following ones get 1 s instead of 10 s so that the run still ends
+            with time_limit(1 if self.stats.get('timeouts') else 10):
                 s, t = cls(), cls()
                 for op in case['ops']:
                     ret, s, t = self._apply(cx, cls, s, t, op)
                     out.append({'ret': ret, 'dump': self._dump(cx, s, t)})
         except CaseTimeout:
+            self.stats['timeouts'] = self.stats.get('timeouts', 0) + 1
             out.append({'exc': 'CaseTimeout'})
         except Exception as e:      # harness-level surprise: recorded, judged by the oracle
             out.append({'exc': exc_name(e), 'msg': str(e)[:200]})
@@ -555,7 +558,14 @@ class C01(Property):
         d['v'] = rd(lambda: [cx.vid(v) for v in s.values()])
         d['len'] = rd(lambda: len(s))
         d['rv'] = rd(lambda: [cx.kid(k) for k in reversed(s)])
-        d['tm'] = rd(lambda: sorted([cx.kid(k), [cx.vid(v) for v in vs]] for k, vs in s.todict(multi=True).items()))
+
+        def todict_multi():
+            td = s.todict(multi=True)
+            r = sorted([cx.kid(k), [cx.vid(v) for v in vs]] for k, vs in td.items())
+            for vs in td.values():
+                vs.append('junk')   # documented: "all the value lists are copies that can be safely mutated"
+            return r
+        d['tm'] = rd(todict_multi)
         probes = [KEY_FORMS[cx.u][k][-1] for k in range(NK)]
         d['g'] = [rd(lambda: cx.vid(s.get(p, DEFAULT))) for p in probes]
 
@@ -637,6 +647,7 @@ class C01(Property):
                  'KM' + e(d['km'], self._nats), 'K' + e(d['k'], self._nats),
                  'VM' + e(d['vm'], self._nats), 'V' + e(d['v'], self._nats),
                  'L' + e(d['len'], str), 'R' + e(d['rv'], self._nats),
+                 'TD' + e(d['td'], self._pairs),
                  'TM' + e(d['tm'], lambda l: ','.join('%s=%s' % (k, self._vals(vs)) for k, vs in l)),
                  'G' + ','.join(e(x, str) for x in d['g']),
                  'GL' + ','.join(e(x, self._vals) for x in d['gl']),
